@@ -339,6 +339,8 @@ class _NoTrace:
     def __init__(self, sch):
         self.store_cls = sch.store_cls
         self.code = None
+        self.guard = sch.guard if sch.guard is not None else False     # (never None: no raw-mode stepping here)
+        self.raw_region = None
 
     def entry(self, lineno):
         return None
